@@ -802,7 +802,18 @@ def C09_builder_slots(ctx, rid, core, G):
                 if ts and H.template_text(ts[0]) == "{}\n{}" and len(n["args"]) == 2:
                     first = S.norm(n["args"][0], S.Env())
                     second = S.norm(n["args"][1], S.Env())
-                    ok = S.contains(first, ("field", "trailing", ("var", "last"))) and not S.contains(second, ("field", "trailing", ("var", "last")))
+                    OWN = ("field", "trailing", ("var", "last"))
+                    # names bound from the member's own trailing comment (`match last.trailing.take() { Some(existing) => ..`, `if let Some(t) = &last.trailing`)
+                    alias = set()
+                    for m_ in H.walk(a["body"]):
+                        if H.kind(m_) == "Match" and S.contains(S.norm(m_["scrut"], S.Env()), OWN):
+                            for aa in m_["arms"]:
+                                if any(y is n for y in H.walk(aa["body"])):
+                                    alias |= set(H.pat_binds(aa["pat"]))
+                        if H.kind(m_) == "LetExpr" and S.contains(S.norm(m_["init"], S.Env()), OWN):
+                            alias |= set(H.pat_binds(m_["pat"]))
+                    is_own = lambda t_: S.contains(t_, OWN) or any(S.contains(t_, ("var", al_)) for al_ in alias)
+                    ok = True if (is_own(first) and not is_own(second)) else (False if (is_own(second) and not is_own(first)) else None)
                     ctx.inst(rid, "%s#tail-comments-after-own-trailing" % rule, ok, "merged as %s then %s" % (S.show(first)[:60], S.show(second)[:60]), H.loc(n))
 
 
